@@ -560,12 +560,23 @@ package sipsp
 //@   ensures err == ErrHdrMoreBytes ==> n == len(buf) || (n+1 == len(buf) && buf[n] == '\\')
 
 //@ func ParseTokenParam(buf, offs, param, flags) (n, err)
+//@   law[C03,C02] EXT(buf) when flags&POptInputEndF == 0
 //@   requires bufOK(buf) && 0 <= offs && offs <= len(buf) && param != nil && ptOK(param, offs)
+//@   requires[C17,*] ptInv(buf, param, offs, flags)
 //@   modifies *param
 //@   loop 0 "for i < len(buf)"
 //@     invariant offs <= i && i <= len(buf) && ptOK(param, i) && param.state != vpFIN
+//@     invariant[C17,*] ptInv(buf, param, i, flags)
 //@     decreases len(buf) - i
+//@     cases int(param.state) 0 8
 //@   ensures 0 <= n && n <= len(buf)
 //@   ensures err == ErrHdrOk || err == ErrHdrMoreBytes || err == ErrHdrMoreValues || err == ErrHdrEOH ==> offs <= n
 //@   ensures ptWithin(param, len(buf))
 //@   ensures err == ErrHdrMoreBytes ==> ptOK(param, n)
+//@   ensures[C17] "suspended": err == ErrHdrMoreBytes ==> ptInv(buf, param, n, flags)
+//@   ensures[C17] "param-found": param_old.state != vpFIN && param_old.state != vpERR && (err == ErrHdrOk || err == ErrHdrMoreValues || (err == ErrHdrEOH && param.state == vpFIN)) ==>
+//@                 ptNameDone(buf, param, flags) && ptValDone(buf, param, flags) && fend(param.All) <= n
+//@   ensures[C17] "ok-at-terminator": param_old.state != vpFIN && err == ErrHdrOk ==> param.state == vpFIN && n < len(buf) &&
+//@                 ((ptTerm(flags) != 0 && buf[n] == ptTerm(flags)) || flags&POptTokSpTermF != 0)
+//@   ensures[C17] "more-values": err == ErrHdrMoreValues ==> param.state == vpInitNxtVal && n < len(buf) && tokAllowedChar(buf[n], flags) && buf[n] != ptSep(flags)
+//@   ensures[C17] "bad-char": err == ErrHdrBadChar && param.state == vpERR ==> n < len(buf) && (!tokAllowedChar(buf[n], flags) || flags&POptTokSpTermF == 0)
